@@ -125,6 +125,48 @@ def subst_value_check(line, out):
         if v1 != v2: return 'value of the result %d != value of the expression under the substituted valuation %d (valuation seed %d)' % (v1, v2, seed)
     return None
 
+def audit(chk, compared, nseeds):
+    """the property itself on the implementation, whether or not the model agrees: for every (state, expression) whose result is an
+    expression, width and value(result) == value(expression under the substituted valuation), batched through the extracted Expr.eval
+    (states with bound memory cells are left to the history correspondence of C07)"""
+    todo = []
+    for l, m, i in compared:
+        if i.startswith(('E ', 'X ', 'FUEL')): continue
+        x = X.parse(l)
+        if x[0] != 'evalexpr': continue
+        st = [(X.show(k), X.show(v)) for k, v in x[1]]
+        if any(k.startswith('(M ') for k, _ in st): continue
+        todo.append((l, X.show(x[2]), st, i))
+    if not todo: return
+    sizes = run_model('exprlaws', [y for l, e, st, o in todo for y in ('(size %s)' % e, '(size %s)' % o)])
+    c1 = []
+    for l, e, st, o in todo:
+        for sd in range(nseeds):
+            for k, v in st: c1.append((sd, v, {}))
+    v1 = XC.model_eval(c1); pos = 0
+    c2 = []
+    for l, e, st, o in todo:
+        for sd in range(nseeds):
+            ov = {}
+            for k, v in st:
+                ov[X.parse(k)[1]] = v1[pos]; pos += 1
+            c2.append((sd, o, {})); c2.append((sd, e, {n: (0 if val is None else val) for n, val in ov.items()}))
+    v2 = XC.model_eval(c2)
+    bad = []
+    for k, (l, e, st, o) in enumerate(todo):
+        why = None
+        if sizes[2 * k] != sizes[2 * k + 1]: why = 'width %s became %s' % (sizes[2 * k], sizes[2 * k + 1])
+        else:
+            for sd in range(nseeds):
+                a, b = v2[2 * (k * nseeds + sd)], v2[2 * (k * nseeds + sd) + 1]
+                if a is not None and b is not None and a != b: why = 'value of the result %d != value of the expression under the substituted valuation %d (valuation seed %d)' % (a, b, sd); break
+        if why: bad.append((l, o, why))
+    chk.cov['audited_results'] = len(todo); chk.cov['audit_valuations_per_case'] = nseeds
+    if bad:
+        bad.sort(key=lambda x: len(x[0]))
+        l, o, why = bad[0]
+        chk.violation('eval_expr breaks C06 on %s -> %s: %s; %d audited cases' % (l[:400], o[:200], why, len(bad)), dict(case=l, impl=o, why=why, count=len(bad)))
+
 def run(tier):
     chk = Check('C06', tier)
     if not chk.prove():
@@ -148,6 +190,7 @@ def run(tier):
                        'or absent; same-address memory cells bound or absent; families with every operator at arity 2..5 and all operands constant, conditions and concatenations whose '
                        'parts become constants. Compared: full result trees. NM = a path the model does not cover (counted, not compared). Non-trivial = result differs from the input expression')
     chk.cov['samples'] = [dict(case=l[:300], model=m[:200], impl=i[:200]) for l, m, i in compared[::max(1, len(compared) // 6)][:6]]
+    audit(chk, compared, 4 if tier == 'quick' else 12)
     mism = [(l, m, i) for l, m, i in compared if m != i]
     mism.sort(key=lambda x: len(x[0]))
     found = None
